@@ -23,7 +23,8 @@ def build_pair(rng, mode):
         kinds = ["gau"]
     o = gen.random_opts(rng, kinds=kinds, monotone=monotone, regular=True, sd=True)
     o["nvars"] = rng.choice([1, 2, 2, 3])
-    o["nout"] = rng.choice([1, 1, 2])
+    o["nout"] = rng.choice([1, 1, 2, 3])
+    o["force_nout"] = True
     if o["prod"] == "any":
         o["prod"] = "had"
     o["K"] = rng.choice([1, 2])
@@ -31,7 +32,7 @@ def build_pair(rng, mode):
     sc1, g1 = gen.gen_circuit(rng, **o)
     if mode == "square":
         return sc1, sc1, g1, g1, monotone
-    o2 = dict(o, like=g1, K=rng.choice([1, 2]), nout=rng.choice([1, 1, 2]))
+    o2 = dict(o, like=g1, K=rng.choice([1, 2]), nout=rng.choice([1, 2, 2, 3]) if o["nout"] > 1 else rng.choice([1, 1, 2]))
     sc2, g2 = gen.gen_circuit(rng, **o2)
     return sc1, sc2, g1, g2, monotone
 
